@@ -117,3 +117,26 @@ theorem layout_of_wfb (F : LUFac K) (ilu : Bool) (hn : F.L.n ≠ 0) (hsq : F.L.m
     exact hu
 
 end Slu.Kernels
+
+namespace Slu.Kernels
+open Slu Slu.Struct
+variable {K : Type} [Inhabited K]
+
+/-- without the ILU relaxation the checker also guarantees distinct row indices in every column of U -/
+theorem ucol_nodup_of_wfb (F : LUFac K) (hn : F.L.n ≠ 0) (h : wfb F false = true) :
+    ∀ j, j < F.L.n → ((F.U.col j).map Prod.fst).Nodup := by
+  unfold wfb at h
+  simp only [hn, decide_false, Bool.false_or, Bool.and_eq_true, decide_eq_true_eq, List.all_eq_true,
+    List.mem_range, Bool.or_eq_true] at h
+  obtain ⟨⟨⟨_, h17⟩, _⟩, _⟩ := h
+  intro j hj
+  have hnd := nodup_true _ (h17 j hj).2
+  have : (F.U.col j).map Prod.fst = ucolRows F j := by
+    unfold CSC.col ucolRows
+    rw [List.map_map]; rfl
+  rw [this]; exact hnd
+
+theorem getElem!_nat (a : Array Nat) (i : Nat) : a[i]! = a.getD i 0 := by
+  simp [Array.getElem!_eq_getD]
+
+end Slu.Kernels
